@@ -17,7 +17,11 @@ LEAN_MODULES = ["RtoscModel.Props.C19"]
 THEOREMS = ["Rtosc.Auto.emit_in_range_right_type", "Rtosc.Auto.binding_is_recorded", "Rtosc.Auto.emit_monotone",
             "Rtosc.Auto.default_gain_linear", "Rtosc.Auto.learn_queue_refines",
             "Rtosc.Auto.unbound_controller_serves_head", "Rtosc.Auto.learn_order_preserved",
-            "Rtosc.Auto.bound_cc_drives_its_slot", "Rtosc.Auto.ieee_model_laws"]
+            "Rtosc.Auto.bound_cc_drives_its_slot", "Rtosc.Auto.ieee_model_laws",
+            "Rtosc.Auto.default_gain_log", "Rtosc.Auto.default_gain_log_real",
+            "Rtosc.Auto.default_gain_log_float_deviation", "Rtosc.Auto.log_bounds_stored",
+            "Rtosc.Auto.logmin_within_declared_range", "Rtosc.Auto.logmin_below_min_counterexample",
+            "Rtosc.Auto.log_scale_needs_positive_bound", "Rtosc.Auto.unbound_nrpn_sequence_serves_head"]
 # the library is linked as it is; its calls of libm's expf/exp are wrapped at link time so that the
 # argument of the exponential of a log-scale parameter is observable whichever spelling the code uses
 HARNESS = {"src": ["auto.cpp"], "deps": ["common.h"], "libs": ["-Wl,--wrap=expf", "-Wl,--wrap=exp"]}
@@ -31,8 +35,19 @@ RULE = ("one op line = one whole history over a fresh AutomationMgr (2..6 slots 
         "in every spelling atof reads: 1e3, 2E-2, +5, .5, 5.); a case is non-trivial when the history binds at least "
         "one parameter and contains an emitting or MIDI operation; distinct = distinct op line")
 ASSUMPTIONS = ["floats are finite (no NaN/infinity, no overflow: gains/offsets/slot values whose products leave the float "
-               "range are outside the theorems and not generated); parameter ranges have min <= max (logmin <= max); "
-               "log-scale bounds are positive",
+               "range are outside the theorems and not generated); parameter ranges have min <= max (logmin <= max)",
+               "the lower end of the range of a log-scale parameter (logmin if declared, else min), as the float the "
+               "code passes to logf, is positive: an explicit clause of PortWF (hypothesis of every theorem through "
+               "Reachable). Without it the compiled code computes logf(0) = -inf / logf(negative) = NaN and emits NaN "
+               "for every slot value (probe `N:2:1 P:f:0:100:log:-:-:00000000:40935d8e B:0:0:0 S:0:3f000000` prints "
+               "ffc00000); the model's carrier has no NaN, and log_scale_needs_positive_bound proves that an arithmetic "
+               "which does give logf a value below zero (log|x|) satisfies all order laws and still sends a value above "
+               "the declared maximum. Such ports are not generated",
+               "a log-scale parameter that declares logmin has the range [logmin, max] whatever its min is (nothing in "
+               "the code compares logmin with min: log_bounds_stored); it lies inside the declared [min, max] when "
+               "min <= logmin (logmin_within_declared_range; all generated ports), otherwise values below min are sent "
+               "(logmin_below_min_counterexample: port 10..100 with logmin 1 sends 1 at slot value 0; the compiled code "
+               "does the same)",
                "integer parameters have integer-valued bounds below 2^24 that fit an int",
                "a bound address has at most 127 characters (createBinding copies it into a 128-byte buffer and cuts "
                "off the rest; hypothesis path.length <= 127 of OpWF; generated addresses have 3..120 characters)",
@@ -41,11 +56,20 @@ ASSUMPTIONS = ["floats are finite (no NaN/infinity, no overflow: gains/offsets/s
                "monotonicity / range theorems are stated for any arithmetic satisfying the order laws Rtosc.Auto.Laws (a "
                "hypothesis, never an axiom); the laws are proved for exact rationals and for the IEEE-754 rounding model "
                "the driver runs (ieee_model_laws); what stays assumed is that the compiled float code is that model "
-               "(checked bit for bit by the correspondence stream) and that libm's logf/expf are monotone",
+               "(checked bit for bit by the correspondence stream) and that libm's logf is monotone on positive "
+               "arguments (Laws.logf_mono asks nothing about arguments <= 0) and expf is monotone",
                "log-scale parameters: expf/logf are libm's; the theorem bounds the value by expf(logf(lower bound)) and "
                "expf(logf(max)), i.e. by the declared bounds up to libm's rounding; the emitted value is checked against "
                "the declared bounds and the logarithmic map with relative tolerance 1e-5 (integers: plus the rounding "
                "to the nearest integer) by the oracle; the model predicts the argument of expf bit-exactly",
+               "default mapping of a log-scale parameter: default_gain_log is stated for exact rational arithmetic and "
+               "EVERY pair of functions standing for logf/expf (logf monotone on positive arguments), "
+               "default_gain_log_real for exact real arithmetic with Real.log/Real.exp; "
+               "default_gain_log_float_deviation bounds the distance between the argument of expf in the IEEE model "
+               "and the exact interpolation of the stored logf values by 86*2^-24*(max|logf bound| + 2^-126) (a "
+               "worst-case bound over 16 roundings: 2.4e-5 for the range 1..100, above the property's 1e-5 for wide "
+               "ranges; the observed deviation is far smaller and is what the oracle checks); libm's own error in "
+               "logf/expf is not part of any theorem",
                "the statement does not say what a slot emits at the moment it learns a controller, nor in which order "
                "the sub-automations of one slot emit: the learn-time emission is masked and the messages of one "
                "operation are compared as a multiset in the model/implementation comparison; the oracle accepts a "
@@ -71,13 +95,28 @@ LEVEL_TEXT = ("Lean theorems over all operation histories of any length and any 
               "else), emission is "
               "monotone for non-negative gain (emit_monotone) under explicit order laws of float arithmetic that are proved "
               "for the IEEE rounding model the driver runs (ieee_model_laws), and the "
-              "default mapping is exactly linear over Rat for linear-scale parameters (default_gain_linear; for log "
-              "scale the map is checked by the oracle within the stated tolerance); the model is compared bit-for-bit "
+              "default mapping is exactly linear over Rat for linear-scale parameters (default_gain_linear) and, for "
+              "log-scale parameters, exactly expf(logf lo + x*(logf hi - logf lo)) with lo..hi the port's declared "
+              "range (logmin if declared, else min, up to max): over Rat for every pair of functions standing for "
+              "logf/expf with logf monotone on positive arguments (default_gain_log), over the reals with Real.log / "
+              "Real.exp, where the value lies between lo and hi themselves and is lo at 0 and hi at 1 "
+              "(default_gain_log_real), and in the IEEE float model the driver runs the argument of expf is within "
+              "86*2^-24*(max|logf bound| + 2^-126) of the exact interpolation (default_gain_log_float_deviation); "
+              "hypothesis-free facts about log-scale ports: the stored bounds are logf of [logmin or min, max] "
+              "(log_bounds_stored), that range is inside the declared [min,max] iff min <= logmin "
+              "(logmin_within_declared_range, logmin_below_min_counterexample), and the positivity clause of PortWF "
+              "cannot be dropped (log_scale_needs_positive_bound); the NRPN form of the learn clause is proved on the "
+              "wire: the four messages 99/98/6/38 of an unbound parameter number teach exactly the oldest waiting "
+              "slot (unbound_nrpn_sequence_serves_head; unbound_controller_serves_head covers CC and completed NRPN "
+              "as single events); the model is compared bit-for-bit "
               "(IEEE rounding modelled exactly) with the compiled implementation on thousands of generated histories "
               "per run (whole type-tag string, first argument and message size of every emitted message), and the "
               "property is evaluated directly on the implementation's output by an independent Python reference")
-LEVEL_NOTE = ("Trusted: Lean kernel; the hand-written model is tied to the code by differential execution only; see evidence trusted_base. Open: for log-scale parameters the theorem's bounds are expf(logf(bound)), not the bound itself (libm "
-              "rounding; oracle tolerance 1e-5); default_gain_linear covers linear scale only; float overflow "
+LEVEL_NOTE = ("Trusted: Lean kernel; the hand-written model is tied to the code by differential execution only; see evidence trusted_base. Open: for log-scale parameters the range theorem over the float model bounds the value by "
+              "expf(logf(bound)), not the bound itself (over the reals it is the bound itself: default_gain_log_real); "
+              "the accuracy of libm's logf/expf (oracle tolerance 1e-5) is in no theorem, and the float deviation bound "
+              "is proved for the default gain/offset and slot values in [0,1] only; a slot bound only to an NRPN can "
+              "queue for learning again (absStep mirrors the code's test midi_cc == -1, review A6); float overflow "
               "(gain around 3e38) and integer bounds beyond the int range are outside the theorems' arithmetic "
               "assumptions: there the real code emits INT_MIN / lets NaN through its clamps (review B1/B2, not generated)")
 TECHNIQUE = "Lean 4 model + invariants over histories; bit-exact float correspondence; independent property oracle"
